@@ -51,6 +51,7 @@ def judge_timeline(
     database_reads: Sequence[Any],
     direct_reads: Sequence[Any],
     events_by_conn: Dict[Any, List[Any]],
+    inflight_reads: Sequence[Any] = (),
 ) -> List[Tuple[str, str]]:
     """The same two demands for runs that also contain controller writes, unsubscriptions,
     repeated subscriptions and timer expiries.
@@ -59,10 +60,14 @@ def judge_timeline(
     every worker update:
         {"t": "update", "j": n, "value": v, "valid": bool, "phase": "start"|"end"}
         {"t": "write", "c": conn, "value": v, "phase": ...}       controller write (acknowledged)
-        {"t": "sub" | "unsub", "c": conn, "phase": ...}
+        {"t": "sub" | "unsub" | "lost", "c": conn, "phase": ...}    ("lost": the connection went away)
     (other operations may appear and are ignored).  The caller guarantees that no controller write
     overlaps a worker update, so the writes have one serial order.
 
+    (0) every read of the attribute database, also one that was in progress while an update landed,
+        returns a representation of the characteristic (`inflight_reads`: one entry per GET
+        /accessories made during the run, None = the answer carried no representation for it):
+        in every serial order of {read, update} the read returns one;
     (1) reads after completion show the last accepted write;
     (2) if the last write that CHANGED the value is a worker update U: every connection whose
         subscription request was answered before U began, and that sent no unsubscription from
@@ -85,6 +90,14 @@ def judge_timeline(
             cur = ev["value"]
     want = cur
     bad: List[Tuple[str, str]] = []
+    if any(r is None for r in inflight_reads):
+        bad.append(
+            (
+                "C20:read-returned-no-representation",
+                "a GET /accessories that was in progress while the worker updated the characteristic carries no "
+                f"representation of it (null entry); per-read outcome: {['null' if r is None else 'ok' for r in inflight_reads]}",
+            )
+        )
     if any(r != want for r in direct_reads):
         bad.append(
             (
@@ -105,16 +118,16 @@ def judge_timeline(
     if last_change is None or last_change[0] != "worker":
         return bad
     t0 = last_change[1]
-    conns = sorted({ev["c"] for ev in timeline if ev["t"] in ("sub", "unsub")}, key=repr)
+    conns = sorted({ev["c"] for ev in timeline if ev["t"] in ("sub", "unsub", "lost")}, key=repr)
     for c in conns:
         subscribed_before = False
         disqualified = False
         for pos, ev in enumerate(timeline):
-            if ev.get("c") != c or ev["t"] not in ("sub", "unsub"):
+            if ev.get("c") != c or ev["t"] not in ("sub", "unsub", "lost"):
                 continue
             if ev["phase"] == "end" and pos < t0:
                 subscribed_before = ev["t"] == "sub"  # the last request answered before U began
-            if ev["t"] == "unsub" and ev["phase"] == "end" and pos > t0:
+            if ev["t"] in ("unsub", "lost") and ev["phase"] == "end" and pos > t0:
                 disqualified = True  # unsubscribed (or unsubscribing) from U's beginning on
         if not subscribed_before or disqualified:
             continue
